@@ -93,6 +93,57 @@ def rule_no_textual_record_compare(A, R, rule):
     R.floor(rule, "string comparisons analysed (input-name lists, ids)", ncmp, 1)
 
 
+def id_syms(av):
+    if av is None or av[0] != "str":
+        return None
+    out = set()
+    for p in av[1]:
+        if p[0] == "jobid":
+            out.add(p[1])
+        else:
+            return None
+    return out or None
+
+
+def rule_comparison_pair(A, R, rule):
+    """the comparison is asked about the right pair: its first id names the job whose output records are compared, its second id
+    the consumer of the per-dependency record (the configured comparison may depend on both)"""
+    runs = all_runs(A)
+    seen4 = set()
+    n4 = 0
+    for (entry, label), run in runs:
+        for v in run.by_kind("strategy_call"):
+            if v["method"] != "is_history_altered" or len(v["args"]) < 4 or (v["fn"], v["bb"]) in seen4:
+                continue
+            seen4.add((v["fn"], v["bb"]))
+            ida, idb = id_syms(v["args"][0]), id_syms(v["args"][1])
+            bad = []
+            for which, rec in (("recorded", v["args"][2]), ("current", v["args"][3])):
+                if rec is None or rec[0] != "str":
+                    continue
+                for p in rec[1]:
+                    if p[0] == "histout":
+                        if ida is not None and p[1] not in ida:
+                            bad.append("%s value is the output of another job than the one named first" % which)
+                    elif p[0] == "hist":
+                        for q in p[1]:
+                            if q[0] == "jobid":
+                                if ida is not None and q[1] not in ida:
+                                    bad.append("%s value is the record of another job than the one named first" % which)
+                            elif q[0] == "fmt" and len(q[1]) == 3 and q[1][0] is None and q[1][2] is None:
+                                sa, sb = id_syms(("str", q[2][0], frozenset())), id_syms(("str", q[2][1], frozenset()))
+                                if ida is not None and sa is not None and sa != ida:
+                                    bad.append("%s value is a per-dependency record of another upstream than the one named first" % which)
+                                if idb is not None and sb is not None and sb != idb:
+                                    bad.append("%s value is a per-dependency record into another job than the one named second" % which)
+                                if ida is not None and idb is not None and sa is not None and sb is not None and sa == idb and sb == ida and sa != sb:
+                                    bad.append("the two ids are passed in the wrong order")
+            n4 += 1
+            R.ob(rule, "%s | the comparison is asked about the pair of jobs whose records it is given" % short(v["fn"]), not bad,
+                 detail="; ".join(sorted(set(bad))[:3]), site=A.site(v))
+    R.floor(rule, "call sites of the configured comparison with known operands", n4, 3)
+
+
 # =============================================================================================
 @prop("C15")
 def check_C15(A, R, tier):
@@ -167,51 +218,7 @@ def check_C15(A, R, tier):
             if p[0] == "fin":
                 oks = set(c[0] for c in p[2])
         R.ob("R15.2", "%s | no record of the dependency => invalidated" % short(b.name), oks == {1}, detail="possible results: %s" % sorted(oks))
-    # R15.4: the comparison is asked about the right pair: its first id names the job whose output records are compared, its
-    # second id the consumer of the per-dependency record (the configured comparison may depend on both)
-    def id_syms(av):
-        if av is None or av[0] != "str":
-            return None
-        out = set()
-        for p in av[1]:
-            if p[0] == "jobid":
-                out.add(p[1])
-            else:
-                return None
-        return out or None
-    seen4 = set()
-    n4 = 0
-    for (entry, label), run in runs:
-        for v in run.by_kind("strategy_call"):
-            if v["method"] != "is_history_altered" or len(v["args"]) < 4 or (v["fn"], v["bb"]) in seen4:
-                continue
-            seen4.add((v["fn"], v["bb"]))
-            ida, idb = id_syms(v["args"][0]), id_syms(v["args"][1])
-            bad = []
-            for which, rec in (("recorded", v["args"][2]), ("current", v["args"][3])):
-                if rec is None or rec[0] != "str":
-                    continue
-                for p in rec[1]:
-                    if p[0] == "histout":
-                        if ida is not None and p[1] not in ida:
-                            bad.append("%s value is the output of another job than the one named first" % which)
-                    elif p[0] == "hist":
-                        for q in p[1]:
-                            if q[0] == "jobid":
-                                if ida is not None and q[1] not in ida:
-                                    bad.append("%s value is the record of another job than the one named first" % which)
-                            elif q[0] == "fmt" and len(q[1]) == 3 and q[1][0] is None and q[1][2] is None:
-                                sa, sb = id_syms(("str", q[2][0], frozenset())), id_syms(("str", q[2][1], frozenset()))
-                                if ida is not None and sa is not None and sa != ida:
-                                    bad.append("%s value is a per-dependency record of another upstream than the one named first" % which)
-                                if idb is not None and sb is not None and sb != idb:
-                                    bad.append("%s value is a per-dependency record into another job than the one named second" % which)
-                                if ida is not None and idb is not None and sa is not None and sb is not None and sa == idb and sb == ida and sa != sb:
-                                    bad.append("the two ids are passed in the wrong order")
-            n4 += 1
-            R.ob("R15.4", "%s | the comparison is asked about the pair of jobs whose records it is given" % short(v["fn"]), not bad,
-                 detail="; ".join(sorted(set(bad))[:3]), site=A.site(v))
-    R.floor("R15.4", "call sites of the configured comparison with known operands", n4, 3)
+    rule_comparison_pair(A, R, "R15.4")
     # R15.5: the cached verdict of a dependency is written only for the dependency that was compared
     vfields = set()
     for b in cands:
